@@ -232,7 +232,20 @@ fn exec_step(gi: usize, t: usize, s: &Value, guards: &mut Vec<dispatch::DefaultG
                     h.uid = u;
                     h.site = site;
                     h.ok = bare;
-                    sp.in_scope(|| {});
+                    // three ways to enter and leave; each is one enter and one exit step
+                    let sp = match s["how"].as_u64().unwrap_or(0) {
+                        1 => {
+                            {
+                                let _g = sp.enter();
+                            }
+                            sp
+                        }
+                        2 => sp.entered().exit(),
+                        _ => {
+                            sp.in_scope(|| {});
+                            sp
+                        }
+                    };
                     SPANS.lock().unwrap()[slot] = Some((sp, u, site, bare));
                 }
                 None => h.applied = false,
@@ -327,7 +340,7 @@ impl Engine for LogEngine {
                 steps.push(match rng.below(10) {
                     0..=3 => json!({"t": t, "op": "event", "site": rng.below(20), "with_message": rng.chance(1, 4)}),
                     4 | 5 => json!({"t": t, "op": "span_new", "slot": slot, "site": rng.below(20), "bare": rng.chance(1, 3)}),
-                    6 | 7 => json!({"t": t, "op": "enter_exit", "slot": slot}),
+                    6 | 7 => json!({"t": t, "op": "enter_exit", "slot": slot, "how": rng.below(3)}),
                     _ => json!({"t": t, "op": "drop", "slot": slot}),
                 });
             }
